@@ -79,6 +79,16 @@ type failingDoc struct {
 
 var ltHangs int
 
+// ltWait: how long a call may take before it counts as not returning. The watchdog is about hangs,
+// not speed: on a loaded machine a "slow" output (a 100 µs sleep per write, in practice a timer
+// tick) can take many seconds for a thousand writes.
+func ltWait(slow bool) time.Duration {
+	if slow {
+		return 2 * time.Minute
+	}
+	return 30 * time.Second
+}
+
 func ltWriteErr(kind string) error {
 	switch kind {
 	case "closedpipe":
@@ -151,7 +161,7 @@ func ltRun(toks []string) string {
 			return fmt.Sprintf("bad reference run: %v", err)
 		}
 		// (an unmarshallable document that encodes "successfully" is judged below, on the real run)
-	case <-time.After(10 * time.Second):
+	case <-time.After(ltWait(slow)):
 		// even on a working output the call does not return
 		ltHangs++
 		return "hang"
@@ -196,7 +206,7 @@ func ltRun(toks []string) string {
 	var err error
 	select {
 	case err = <-done:
-	case <-time.After(10 * time.Second):
+	case <-time.After(ltWait(slow)):
 		ltHangs++
 		return "hang"
 	}
